@@ -40,6 +40,7 @@ def run(chk: Check, proj: Project) -> None:
     s5(chk, proj, w)
     chk.rule("S6", "deferred code (render hooks, renderer closures) never renders with the live input context: provided keys are read from a snapshot taken while the provider's scope was active")
     deferred_live_context(chk, "S6", proj)
+    s7(chk, proj, w)
 
 
 def s1(chk: Check, proj: Project, w) -> None:
@@ -246,6 +247,35 @@ def s5(chk: Check, proj: Project, w) -> None:
     a = assignments(f, ikey)
     ok4 = len(a) == 1 and a[0][1] is not None and "_INJECT_CONTEXT_KEY_PREFIX" in norm(a[0][1]) and "key" in norm(a[0][1])
     chk.ob("S5", "provide:get_injected_context_var:key-construction", m.loc(a[0][0]) if a else m.loc(f), ok4, "lookup key is the inject prefix + the requested key")
+
+
+def s7(chk: Check, proj: Project, w) -> None:
+    chk.rule("S7", "inject keys never outlive their provider: the key is stored under a layer that `with` pops on every exit; fills do not capture internal keys; the payload class is built from THIS call's keyword names")
+    from . import C03
+
+    sub = Check(chk.pid, chk.tier, chk.seed, quiet=True)
+    C03.s7(sub, proj, w)
+    for o in sub.obls:
+        if "no-internal-keys-captured" in o.construct:
+            chk.obls.append(type(o)(f"{chk.pid}-S7", o.construct, o.loc, o.verdict, o.message, o.nontrivial, o.detail))
+    m, f = proj.func("provide", "ProvideNode.render")
+    sp = calls(f, "set_provided_context_var")
+    ok = bool(sp) and any(isinstance(a, ast.With) and any(isinstance(it.context_expr, ast.Call) and norm(it.context_expr.func) == f"{norm(sp[0].args[0])}.update" for it in a.items) for a in ancestors(sp[0]))
+    chk.ob("S7", "provide:ProvideNode.render:key-under-with-layer", m.loc(sp[0]) if sp else m.loc(f), ok,
+           "the inject key is stored inside `with context.update({})`, which pops the layer on every exit" if ok else
+           "the inject key is stored on a layer that is pushed/popped by hand: when the body raises the layer (and the key) stay on the caller's Context while the error cleanup deletes the data, so a later render with the same Context gets KeyError for the dangling id instead of the default")
+    m2, f2 = proj.func("provide", "set_provided_context_var")
+    kw = params(f2)[2]
+    pay = local_from(f2, lambda v: isinstance(v, ast.Call) and any(k.arg is None and norm(k.value) == kw for k in v.keywords) and not v.args)
+    okp = False
+    if pay:
+        d = assignments(f2, pay)
+        cls = norm(d[0][1].func) if d and isinstance(d[0][1], ast.Call) else None
+        cd = assignments(f2, cls) if cls else []
+        okp = len(cd) == 1 and isinstance(cd[0][1], ast.Call) and last_attr(cd[0][1].func) == "namedtuple" and len(cd[0][1].args) == 2 and norm(cd[0][1].args[1]) == f"{kw}.keys()"
+    chk.ob("S7", "provide:set_provided_context_var:payload-class-from-this-call", m2.loc(f2), okp if pay else None,
+           f"the payload class is namedtuple(..., {kw}.keys()) built in this call" if okp else
+           "the payload's namedtuple class does not come from this call's keyword names (memoised / shared): a later render of the same tag with other keys raises TypeError or returns the earlier provider's fields")
 
 
 MANIFEST = {
